@@ -457,7 +457,9 @@ def replay_store_tf(obligation=None, model=None, meta=None):
     from contracts.bounded_tds_rule import model_time_constants
     logging.getLogger('andes').setLevel(logging.CRITICAL)
     n = 0
-    for case in ('kundur/kundur_full.xlsx', 'ieee14/ieee14_full.xlsx'):
+    # kundur_wtdta1: the drive-train integrators take their time constants from constant services (2 Ht, 2 Hg), which exist only after
+    # the models' services have been evaluated
+    for case in ('kundur/kundur_full.xlsx', 'ieee14/ieee14_full.xlsx', 'kundur/kundur_wtdta1.xlsx'):
         n += 1
         with contextlib.redirect_stdout(io.StringIO()), contextlib.redirect_stderr(io.StringIO()):
             ss = andes.load(andes.get_case(case), default_config=True, no_output=True)
@@ -521,3 +523,50 @@ def replay_failures(obligation=None, model=None, meta=None):
 
 
 replay_failures.real_system = True
+
+
+def system_init(pid):
+    """System.init: for every model handed in, its external services are linked, THEN the model is initialised (which evaluates its
+    constant services), THEN its variables are copied to the DAE and back; only after all models are through are the post-initialisation
+    services updated and, last, the time constants copied into dae.Tf (a time constant may be a constant service: it does not exist
+    before the model's init)."""
+    EM = 'models.$e'
+
+    def rec(tag):
+        def h(ex, st, args, kw, node):
+            st.ghost['order'] = st.ghost['order'] + [tag]
+            return None
+        return h
+
+    def reset(v):
+        v.st.ghost['order'] = []
+        v.st.ghost['in_iter'] = True
+        return True
+
+    def per_model(v):
+        g = v.st.ghost
+        if not g.get('in_iter'):
+            return True
+        o = [x for x in g['order'] if x != 'link']
+        return z3.BoolVal(o == ['init', 'vars_to_dae', 'vars_to_models'] and g['order'][-3:] == o)
+
+    def post(old, new, res):
+        o = new.st.ghost['order']
+        tail = [x for x in o if x in ('s_update_post', '_store_tf')]
+        return z3.BoolVal(o[:1] == ['_init_numba'] and tail == ['s_update_post', '_store_tf'] and o[-2:] == ['s_update_post', '_store_tf'])
+    c = Contract(FS, 'System.init', pid=pid, params={'self': TObj(), 'models': TColl(), 'routine': TStr()},
+                 schema={'models': TColl(), EM + '.services_ext': TColl(), EM + '.services_ext.$e.model': TStr(), EM + '.class_name': TStr()},
+                 ghost_init={'order': []},
+                 calls={'self._init_numba': rec('_init_numba'), EM + '.init': rec('init'), 'self.vars_to_dae': rec('vars_to_dae'), 'self.vars_to_models': rec('vars_to_models'),
+                        'self.s_update_post': rec('s_update_post'), 'self._store_tf': rec('_store_tf'), EM + '.services_ext.$e.link_external': rec('link'),
+                        '__objdict__': lambda ex, st, a, k, n: Mark('ext-model'), '__getitem__': lambda ex, st, a, k, n: Mark('ext-model')},
+                 loops={0: Loop(inv=[('per-model:externals-linked,then-init,then-variables-to-the-DAE-and-back', per_model)], assume=[('reset', reset)],
+                                frame=['$mdl', '$instance', '$ext_name', '$ext_model', EM + '.*']),
+                        1: Loop(inv=[], frame=['$instance', '$ext_name', '$ext_model', EM + '.services_ext.$e.*'])},
+                 ensures=[('numba-first;after-all-models:post-services,then-time-constants-last', post)], modifies=[])
+    c.merge = False
+
+    def pre_state(st):
+        st.ghost.pop('in_iter', None)
+    c.pre_state = pre_state
+    return c
